@@ -32,7 +32,7 @@ Definition model_ok (c : case) : bool :=
   | OpCompress =>
       let '(w, o) := compress rs in
       negb (c_err c) && rows_eqb out o && Zlist_eqb (c_weights c) (map Z.of_nat w) &&
-      Z.eqb (c_len c) (Z.of_nat (length w))   (* a.length = npat, also for an alignment without rows *)
+      Z.eqb (c_len c) (match rs with [] => (-1)%Z | _ => Z.of_nat (length w) end)   (* an alignment without rows has no length *)
   end.
 
 (* ---- SPEC oracle ---------------------------------------------------------------------- *)
